@@ -66,6 +66,7 @@ func genGoDecTypes(g *golite, note func(string, ...interface{})) string {
 	}
 	var b strings.Builder
 	b.WriteString("import PicoModel.Gen.GoDecoder\nimport PicoModel.GoConv\n" + goHeader + "namespace Pico.GoSrc.DecTypes\nopen Pico\n\n")
+	g.tag = "DecTypes"
 	b.WriteString(g.emit(order, note))
 	fmt.Fprintf(&b, "def names : List String := [%s]\n\n", quoteList(order))
 	b.WriteString("end Pico.GoSrc.DecTypes\n")
@@ -109,6 +110,7 @@ func genGoEncTypes(g *golite, note func(string, ...interface{})) string {
 	}
 	var b strings.Builder
 	b.WriteString("import PicoModel.Gen.GoEncoder\nimport PicoModel.GoConv\n" + goHeader + "namespace Pico.GoSrc.EncTypes\nopen Pico\n\n")
+	g.tag = "EncTypes"
 	b.WriteString(g.emit(order, note))
 	fmt.Fprintf(&b, "def names : List String := [%s]\n\n", quoteList(order))
 	b.WriteString("end Pico.GoSrc.EncTypes\n")
